@@ -23,6 +23,7 @@ static std::map<int, Loop::RunId> g_id_of_task;
 static json g_bodies;                         // task number (string) -> list of body ops
 static std::atomic<int> g_foreign_left{0};
 static int g_exit_task = 0;
+static std::atomic<int> g_internal{0};
 
 static bool is_main() { return std::this_thread::get_id() == g_main_tid; }
 static const char *role() { return is_main() ? "M" : "F"; }
@@ -33,8 +34,11 @@ static void hook(const char *name, long a, long b) {
     S().arrive(name, role(), b);
     uint64_t seq = next_seq();
     std::string e;
-    if (!strcmp(n, "ril.push")) e = J("push_in") + kv("t", tl_cur_task) + ks("th", tl_name) + kb("wrote", b != 0);
-    else if (!strcmp(n, "next.push")) e = J("push_next") + kv("t", tl_cur_task) + ks("th", tl_name);
+    // a push that is not one of the driver's submissions is the library's own deferred work (e.g. freeing the finished exit timer)
+    int t = tl_cur_task; const char *th = tl_name;
+    if (t == 0 && (!strcmp(n, "ril.push") || !strcmp(n, "next.push"))) { t = 1000 + g_internal.fetch_add(1); th = "L"; }
+    if (!strcmp(n, "ril.push")) e = J("push_in") + kv("t", t) + ks("th", th) + kb("wrote", b != 0);
+    else if (!strcmp(n, "next.push")) e = J("push_next") + kv("t", t) + ks("th", th);
     else if (!strcmp(n, "swap.next")) e = J("swap_next") + kv("n", a) + kv("left", b);
     else if (!strcmp(n, "swap.in")) e = J("swap_in") + kv("n", a) + kv("left", b);
     else if (!strcmp(n, "drain.gen")) e = J("drain_gen") + kv("nn", a) + kv("ni", b);
@@ -58,6 +62,7 @@ static void submit(const std::string &entry, int k) {
     if (entry == "ril") id = g_loop->runInLoop(make_task(k), "verif");
     else if (entry == "next") id = g_loop->runNext(make_task(k), "verif");
     else id = g_loop->run(make_task(k), "verif");
+    tl_cur_task = 0;
     std::lock_guard<std::mutex> g(g_idm);
     g_id_of_task[k] = id;
 }
@@ -69,7 +74,11 @@ static void do_op(const json &op) {
         { std::lock_guard<std::mutex> g(g_idm); auto i = g_id_of_task.find(k); if (i == g_id_of_task.end()) return; id = i->second; }
         bool r = g_loop->cancel(id);
         emit(J("cancel") + kv("t", k) + kb("res", r) + "}");
-    } else if (o == "exit") { emit(J("exit") + "}"); g_loop->exitLoop(); }
+    } else if (o == "exit") {        // immediately, or through the exit timer
+        int ms = op.value("ms", 0);
+        emit(J("exit") + kv("ms", ms) + "}");
+        if (ms > 0) g_loop->exitLoop(std::chrono::milliseconds(ms)); else g_loop->exitLoop();
+    }
     else if (o == "sleep") std::this_thread::sleep_for(std::chrono::microseconds(op.value("us", 50)));
 }
 static void foreign_thread(json ops, std::string name) {
@@ -82,7 +91,7 @@ static void foreign_thread(json ops, std::string name) {
 }
 
 static void run_execution(const json &x) {
-    S().reset(x);
+    S().reset(x); g_internal = 0;
     S().gpoints = {"loop.ril.enter", "loop.start.enter", "loop.start.enabled", "loop.after.enter", "loop.pass.begin", "loop.after.drained"};
     g_bodies = x.value("tasks", json::object());
     watchdog_ms() = x.value("watchdog_ms", 20000);
@@ -92,15 +101,16 @@ static void run_execution(const json &x) {
     for (auto &round : x["rounds"]) {
         for (auto &op : round.value("pre", json::array())) do_op(op);
         g_exit_task = round["exit_task"];
-        g_bodies[std::to_string(g_exit_task)] = json::array({{{"o", "exit"}}});
+        g_bodies[std::to_string(g_exit_task)] = json::array({{{"o", "exit"}, {"ms", round.value("exit_ms", 0)}}});
+        bool once = round.value("mode", std::string("forever")) == "once";      // one pass only: whatever is submitted later stays pending
         std::vector<std::thread> th;
         auto fs = round.value("foreign", json::array());
         g_foreign_left = (int)fs.size();
         int i = 0;
         for (auto &ops : fs) { ++i; th.emplace_back(foreign_thread, ops, "F" + std::to_string(i)); }
         if (fs.empty()) submit("next", g_exit_task);
-        emit(J("run_loop") + "}");
-        {   CallGuard cg; g_loop->runLoop(Loop::Mode::kForever); }
+        emit(J("run_loop") + kb("once", once) + "}");
+        {   CallGuard cg; g_loop->runLoop(once ? Loop::Mode::kOnce : Loop::Mode::kForever); }
         emit(J("loop_return") + "}");
         for (auto &t : th) t.join();
     }
@@ -125,7 +135,7 @@ static json random_execution(vh::Rng &rng, uint64_t seed) {
             int r = (int)rng.below(100);
             if (r < 35 && depth < 2) { int k = ++next_task; known.push_back(k); b.push_back({{"o", rng.chance(50) ? "next" : rng.chance(50) ? "ril" : "run"}, {"t", k}}); tasks[std::to_string(k)] = json::array(); }
             else if (r < 70 && !known.empty()) b.push_back({{"o", "cancel"}, {"t", known[rng.below(known.size())]}});
-            else if (r < 80) b.push_back({{"o", "exit"}});
+            else if (r < 80) b.push_back({{"o", "exit"}, {"ms", rng.chance(30) ? (int)rng.range(1, 4) : 0}});
             else b.push_back({{"o", "sleep"}, {"us", (int)rng.range(1, 200)}});
         }
         return b;
@@ -154,6 +164,8 @@ static json random_execution(vh::Rng &rng, uint64_t seed) {
             foreign.push_back(ops);
         }
         round["pre"] = pre; round["foreign"] = foreign; round["exit_task"] = ++next_task;
+        if (rng.chance(25)) round["mode"] = "once";
+        if (rng.chance(25)) round["exit_ms"] = (int)rng.range(1, 4);
         rounds.push_back(round);
     }
     // a few submissions left pending for the destructor
